@@ -28,7 +28,7 @@ RULE = ("(one case in four has a component of a user-defined market class that p
         "and get_index / compute_market_index / recorded and computed fundamental index equal the weighted average over exactly those, at every time of a short run; non-trivial = >=1 refused registration.")
 ASSUMPTIONS = ["a component's fundamental may be shocked later in the same step; the index fundamental is compared before that happens"]
 
-OPTS = {"fundamentals": True}
+OPTS = {"fundamentals": True, "index_queries": True}
 
 
 @st.composite
@@ -42,6 +42,11 @@ def cases(draw, tier):
                   "fundamentalVolatility": draw(st.sampled_from([0.0, 0.01, 0.05])), "fundamentalDrift": draw(st.sampled_from([0.0, 0.002]))}
     k = draw(st.integers(2, nm))
     comps = draw(st.permutations(names))[:k]
+    if len(comps) >= 3 and draw(st.integers(0, 3)) == 0:
+        # unequal shares whose mean is exactly the share count of the FIRST listed component
+        mean_, d_ = draw(st.sampled_from([200, 5000])), draw(st.sampled_from([1, 100]))
+        for n_, s_ in zip(comps, [mean_, mean_ - d_, mean_ + d_] + [mean_] * (len(comps) - 3)):
+            cfg[n_]["outstandingShares"] = s_
     cfg["IDX"] = {"class": "IndexMarket", "tickSize": draw(st.sampled_from([1.0, 0.01])), "marketPrice": draw(st.sampled_from([100.0, 300.0])), "markets": list(comps)}
     if draw(st.integers(0, 3)) == 0:
         # a component of a user-defined market class that publishes its own price / fundamental numbers: the index averages what its
@@ -69,7 +74,7 @@ def cases(draw, tier):
                  "scripts": draw(st.lists(program_strategy(spec, max_actions=5, decline_weight=0), min_size=1, max_size=3))}
     cfg["B0"] = crossing_pair(list(names) + ["IDX"])
     cfg["simulation"]["agents"].append("B0")
-    cfg["P"] = {"class": "VProbeEvent", "hooks": [["market", True, None, None, None]]}
+    cfg["P"] = {"class": "VProbeEvent", "hooks": [["market", True, None, None, None], ["market", False, None, None, None]]}
     if draw(st.integers(0, 3)) == 0:
         # the share count of a component changes in mid-run (a user event assigns the public attribute): the weights are the live ones
         cfg["P"]["reshare"] = {"at": draw(st.integers(0, 6)), "market": draw(st.sampled_from(comps)), "shares": draw(st.sampled_from([1, 9, 777, 10**7]))}
@@ -113,6 +118,16 @@ def check_case(case):
         raise
     A = Analysis(case, res)
     sim, cfg = A.sim, case["config"]
+    # explicit queries for the step in progress, before its orders and after them: each answer equals the weighted average of what
+    # the components report at that very moment
+    for k, kw in A.items:
+        if k == "hook" and kw.get("idxq"):
+            for mid, t, v1, v2, comps_now in kw["idxq"]:
+                tot_ = sum(s_ for _, s_ in comps_now)
+                want_ = math.fsum(p_ * s_ for p_, s_ in comps_now) / tot_
+                if not (math.isclose(v1, want_, rel_tol=1e-12) and math.isclose(v2, want_, rel_tol=1e-12)):
+                    raise Violation("C17.index_is_weighted_average", f"{kw['what']} hook at time {t}: index market {mid} answers get_index({t}) = {v1!r} / get_market_index = {v2!r}, "
+                                                                     f"its components report (price, shares) {comps_now}: weighted average {want_!r}")
     n_fund = 0
     for iname in [n for n in ("IDX2", "IDX") if n in cfg]:
         idx = sim.name2market[iname]
